@@ -1,32 +1,83 @@
-use vharness::invoke::*;
-use vharness::keys::Peer;
+//! vcheck run <Cxx> [--tier quick|thorough] [--seed N] [--only-case K]
+//! vcheck worker | reexec   (internal)
+use vharness::report::{finish, Cfg};
+
 fn main() {
-    let a = Peer::new("A");
-    let b = Peer::new("B");
-    let air = format!(r#"(seq (call "{}" ("s" "f1") [] x) (seq (call "{}" ("s" "f2") [x] $st) (canon "{}" $st #can)))"#, a.id, b.id, b.id);
-    let mut inp = RunInput::new(&air, &a, &a, "p1");
-    let o = invoke(&inp);
-    println!("{} {:?} {:?} {:?}", o.ret_code, o.error_message, o.next_peers, o.requests);
-    let mut cr = std::collections::BTreeMap::new();
-    cr.insert("1".to_string(), (0, "{\"a\":1}".to_string()));
-    inp.prev = o.data.clone();
-    inp.call_results = CallResultsIn::Map(cr);
-    let o = invoke(&inp);
-    println!("{} {:?} {:?} {:?}", o.ret_code, o.error_message, o.next_peers, o.requests);
-    let v = vharness::proj::decode(&o.data).unwrap();
-    println!("{}", serde_json::to_string_pretty(&v.data).unwrap());
-    let mut inb = RunInput::new(&air, &b, &a, "p1");
-    inb.cur = o.data.clone();
-    let o = invoke(&inb);
-    println!("{} {:?} {:?} {:?}", o.ret_code, o.error_message, o.next_peers, o.requests);
-    let mut cr = std::collections::BTreeMap::new();
-    cr.insert("1".to_string(), (0, "[1,2]".to_string()));
-    inb.prev = o.data.clone(); inb.cur = vec![];
-    inb.call_results = CallResultsIn::Map(cr);
-    let o = invoke(&inb);
-    let v = vharness::proj::decode(&o.data).unwrap();
-    println!("{}", serde_json::to_string_pretty(&v.data).unwrap());
-    println!("{:?}", vharness::proj::render_trace(&v.data));
-    let re = vharness::proj::encode(&v).unwrap();
-    println!("reenc equal: {}", re == o.data);
+    let args: Vec<String> = std::env::args().collect();
+    let verif_dir = std::env::var("VERIF_DIR").unwrap_or_else(|_| "/verif".to_string());
+    match args.get(1).map(|s| s.as_str()) {
+        Some("worker") => vharness::sentry::worker_main(),
+        Some("reexec") => vharness::sentry::reexec_main(),
+        Some("play") => {
+            // vcheck play <air-file> <n_peers> <seed> : run one random history of a hand-written script and print it
+            let air = std::fs::read_to_string(&args[2]).expect("air file");
+            let n: usize = args.get(3).and_then(|s| s.parse().ok()).unwrap_or(3);
+            let seed: u64 = args.get(4).and_then(|s| s.parse().ok()).unwrap_or(1);
+            let ids = vharness::sim::standard_peer_ids(n);
+            let mut air = air;
+            for (i, id) in ids.iter().enumerate() {
+                air = air.replace(&format!("@P{i}"), id);
+            }
+            let w = vharness::sim::World::new(n, air, None, "play", 3);
+            let mut rng = vharness::rng::Rng::new(seed);
+            let sched = vharness::sim::SchedCfg { max_dups: 0, dup_bias: 0, ..Default::default() };
+            let h = vharness::sim::run_random(&w, &mut rng, &sched);
+            for s in &h.steps {
+                println!("step {} {} {:?} code={} {} next={:?}", s.idx, w.peers[s.peer].name, s.decision, s.out.ret_code, vharness::proj::trunc(&s.out.error_message, 200), s.out.next_peers.iter().map(|p| w.peer_name(p)).collect::<Vec<_>>());
+                if let Ok(r) = &s.out.requests { for (id, r) in r { println!("    req {id}: {} {:?}", r.function, r.args); } }
+                if let Some(v) = &s.out_v { println!("    {:?}", vharness::proj::render_trace(v)); }
+            }
+            println!("quiescent={}", h.quiescent);
+        }
+        Some("run") => {
+            let prop = args.get(2).cloned().unwrap_or_default();
+            let mut cfg = Cfg {
+                seed: std::env::var("VERIF_SEED").ok().and_then(|s| s.parse().ok()).unwrap_or(1),
+                thorough: std::env::var("VERIF_TIER").map(|t| t == "thorough").unwrap_or(false),
+                only_case: None,
+                threads: std::thread::available_parallelism().map(|n| n.get()).unwrap_or(8).min(16),
+            };
+            let mut i = 3;
+            while i < args.len() {
+                match args[i].as_str() {
+                    "--tier" => {
+                        cfg.thorough = args.get(i + 1).map(|t| t == "thorough").unwrap_or(false);
+                        i += 1;
+                    }
+                    "quick" => cfg.thorough = false,
+                    "thorough" => cfg.thorough = true,
+                    "--seed" => {
+                        cfg.seed = args.get(i + 1).and_then(|s| s.parse().ok()).unwrap_or(cfg.seed);
+                        i += 1;
+                    }
+                    "--only-case" => {
+                        cfg.only_case = args.get(i + 1).and_then(|s| s.parse().ok());
+                        i += 1;
+                    }
+                    "--threads" => {
+                        cfg.threads = args.get(i + 1).and_then(|s| s.parse().ok()).unwrap_or(cfg.threads);
+                        i += 1;
+                    }
+                    _ => {}
+                }
+                i += 1;
+            }
+            vharness::invoke::install_panic_hook();
+            let _ = vharness::errcodes::table();
+            let t0 = std::time::Instant::now();
+            let rep = match vharness::mon::dispatch(&prop, &cfg) {
+                Some(r) => r,
+                None => {
+                    eprintln!("unknown property {prop}");
+                    std::process::exit(2);
+                }
+            };
+            let code = finish(&cfg, rep, t0.elapsed().as_secs_f64(), &verif_dir);
+            std::process::exit(code);
+        }
+        _ => {
+            eprintln!("usage: vcheck run <Cxx> [quick|thorough] [--seed N] [--only-case K]");
+            std::process::exit(2);
+        }
+    }
 }
